@@ -304,13 +304,11 @@ def _do_eager(w: World, op: dict, idx: int, log: EventLog, viol: list, stats: Co
     xs = prog.make_inputs(0)
     got = _eager_summary(prog.fn, xs, prog.kwargs.get("input_params"))
     stats["eager_probes"] += 1
+    exp = None if w.control else w.expect.get(key)
+    verdict = None
     if w.control:
         w.eager_out.setdefault(key, got)
-        log.add(i=idx, op="eager", pid=pid, control=True)
-        return
-    exp = w.expect.get(key)
-    verdict = None
-    if exp is not None:
+    elif exp is not None:
         ok, msg = _eager_equal(exp, got)
         verdict = ok
         if pid in w.converted:
@@ -318,9 +316,40 @@ def _do_eager(w: World, op: dict, idx: int, log: EventLog, viol: list, stats: Co
         if not ok:
             mode = f"{got.get('exc')}:{got.get('msg', '')[:48]}" if "exc" in got else "values"
             viol.append({"sig": f"C13|eager_changed|pid={pid}|x64={int(ambient)}|after={mode}", "cls": f"eager_changed|{mode}", "detail": {"expected": exp, "got": got, "msg": msg}, "replay_ops": list(executed)})
-    else:
+    elif not w.control:
         stats["eager_probes_without_expectation"] += 1
     log.add(i=idx, op="eager", pid=pid, ok=verdict, got=got.get("exc") or [o["digest"] for o in got["outs"]])
+    # The user jit-compiles / abstractly evaluates the converted callable ITSELF after exporting it
+    # (jax.jit(model)(x), jax.eval_shape(model, x)): both share JAX's trace cache keyed on the callable
+    # object, so a conversion that traced that very object leaves its jaxpr there.  Fixture programs only
+    # (registry callables that use inner jax.jit are the listed known finding).
+    if pid.startswith("fx::c13::") and not (prog.kwargs.get("input_params") or {}) and not pid.endswith(("jit_cold", "jit_cold2")):
+        jkey = key + "|jit"
+        try:
+            jfn = jax.jit(prog.fn)
+        except BaseException as exc:  # noqa: BLE001
+            jfn = None
+        if jfn is not None:
+            gotj = _eager_summary(jfn, xs, None)
+            try:
+                sds = [jax.ShapeDtypeStruct(x.shape, x.dtype) for x in xs]
+                es = jax.eval_shape(prog.fn, *sds)
+                gotj["eval_shape"] = [[list(l.shape), str(l.dtype)] for l in jax.tree_util.tree_leaves(es)]
+            except BaseException as exc:  # noqa: BLE001
+                gotj["eval_shape"] = f"{type(exc).__name__}"
+            stats["eager_jit_probes"] += 1
+            if w.control:
+                w.eager_out.setdefault(jkey, gotj)
+            else:
+                expj = w.expect.get(jkey)
+                if expj is not None:
+                    okj, msgj = _eager_equal(expj, gotj)
+                    if okj and expj.get("eval_shape") != gotj.get("eval_shape"):
+                        okj, msgj = False, f"eval_shape {expj.get('eval_shape')} vs {gotj.get('eval_shape')}"
+                    if not okj:
+                        mode = f"{gotj.get('exc')}:{gotj.get('msg', '')[:48]}" if "exc" in gotj else "values"
+                        viol.append({"sig": f"C13|jit_of_converted_callable_changed|pid={pid}|x64={int(ambient)}|after={mode}", "cls": f"jit_of_converted_callable_changed|{mode}", "detail": {"expected": expj, "got": gotj, "msg": msgj}, "replay_ops": list(executed)})
+                    log.add(i=idx, op="eager_jit", pid=pid, ok=okj)
 
 
 def _do_sweep(w: World, op: dict, idx: int, log: EventLog, viol: list, stats: Counter, executed: list) -> None:
@@ -697,7 +726,7 @@ def main(tier: str) -> int:
     for p in hist_plans + enum_plans + cold_plans:
         p["known"] = known_pats
         p["ignore"] = noise
-        used = {f"{o['pid']}|{b}" for o in p["ops"] if o["op"] == "eager" for b in (0, 1)}
+        used = {f"{o['pid']}|{b}{sfx}" for o in p["ops"] if o["op"] == "eager" for b in (0, 1) for sfx in ("", "|jit")}
         p["expect_eager"] = {k: v for k, v in eager_exp.items() if k in used}
     plans = enum_plans + cold_plans + hist_plans
     results = co.run_plans(plans, timeout=max(900.0, budget), deadline=t0 + budget)
@@ -744,6 +773,7 @@ def main(tier: str) -> int:
                 "conversions_returned": stats.get("conversions_returned", 0),
                 "conversions_raised": stats.get("conversions_raised", 0),
                 "eager_probes": stats.get("eager_probes", 0),
+                "eager_jit_and_eval_shape_probes_of_converted_callable": stats.get("eager_jit_probes", 0),
                 "eager_probes_after_conversion_of_same_program": stats.get("eager_probes_after_conversion_of_same_program", 0),
                 "full_sweeps": stats.get("full_sweeps", 0),
                 "full_sweep_entries": stats.get("full_sweep_entries", 0),
